@@ -1,6 +1,7 @@
 //! Checks over the network crate (through its `verif` hook): C10, C12, C13, C14, C18, C19 and the
 //! network halves of C09 / C15.
 mod c10;
+mod c12;
 mod c13;
 mod c14;
 mod c15;
@@ -13,6 +14,7 @@ fn main() {
     let env = common::Env::from_args();
     let code = match env.property.as_str() {
         "C10" => c10::main(&env),
+        "C12" => c12::main(&env),
         "C13" => c13::main(&env),
         "C14" => c14::main(&env),
         "C15" => c15::main(&env),
